@@ -503,7 +503,7 @@ def m_option_map(I, st, args, dest_ty, fn, b, line, fref):
         pay = v.fields[0] if v.variant == 1 and v.fields else (v.alts[1][0] if v.alts and v.alts.get(1) else None)
     if pay is None:
         return m_top(I, st, args, dest_ty)
-    r = I.call_closure(st, clos, [pay])
+    r = I.apply_callable(st, clos, [pay])
     if r is None:
         return m_top(I, st, args, dest_ty)
     if v.variant == 1:
@@ -522,7 +522,7 @@ def m_option_and_then(I, st, args, dest_ty, fn, b, line, fref):
         pay = v.fields[0] if v.variant == 1 and v.fields else (v.alts[1][0] if v.alts and v.alts.get(1) else None)
     if pay is None:
         return m_top(I, st, args, dest_ty)
-    r = I.call_closure(st, clos, [pay])
+    r = I.apply_callable(st, clos, [pay])
     if r is None or r.kind != "enum":
         return m_top(I, st, args, dest_ty)
     if v.variant == 1:
@@ -563,7 +563,7 @@ def m_result_comb(kind):
         r = None
         if src is not None and known in (None, 0 if on_ok else 1):
             s_before = st.copy() if known is None else None
-            r = I.call_closure(st, clos, [src])
+            r = I.apply_callable(st, clos, [src])
             if r is None:
                 return I.havoc_call(st, args, dest_ty)
             if s_before is not None:
@@ -815,7 +815,7 @@ def iter_elem(I, st, it):
         inner = iter_elem(I, st, it.fields[0])
         if inner is None:
             return None
-        return I.call_closure(st, it.fields[1], [inner])
+        return I.apply_callable(st, it.fields[1], [inner])
     ints = []
     incl = False
     if it.kind == "agg" and str(it.name).split("<")[0].endswith(("Range", "RangeInclusive")):
@@ -848,7 +848,7 @@ def m_for_each(I, st, args, dest_ty, fn, b, line, fref):
         elem = iter_elem(I, st, it)
         if elem is None:
             raise Unsupported("for_each over an iterator that is not a range/adaptor chain")
-        r = I.call_closure(st, clos, [elem])
+        r = I.apply_callable(st, clos, [elem])
         if r is None and not st.dead:
             raise Unsupported("for_each: closure body not available")
         if st.dead:
